@@ -148,6 +148,60 @@ def gen_history(rng, idx, tier):
                 probes=first["probes"], sliver=False)
 
 
+VCPU_LAYOUT_FIELDS = ([("r%d" % i, 4, 4) for i in range(8)] +
+                      [("psr", 4, 4), ("sp", 4, 4), ("lr", 4, 4), ("rt_code", 1, 1), ("phys_cpu", 1, 1), ("cpu_state", 1, 1),
+                       ("app_id", 1, 1), ("mbox_ap_msg", 4, 4), ("mbox_mp_msg", 4, 4), ("mbox_ap_cmd", 1, 1),
+                       ("mbox_mp_cmd", 1, 1), ("sw_count", 2, 2), ("sw_file", 4, 4), ("sw_line", 4, 4), ("time", 4, 4),
+                       ("app_name", 16, 1), ("iobuf", 4, 4), ("sw_ver", 4, 4), ("__PAD", 16, 4),
+                       ("user0", 4, 4), ("user1", 4, 4), ("user2", 4, 4), ("user3", 4, 4)])
+
+
+def gen_layout(rng):
+    """Another memory layout of the `sv` and `vcpu` structs (another build of the system software): base moved, the
+    fields read while probing moved to other (aligned, non-overlapping) places, the vcpu block resized and its fields
+    permuted."""
+    slots = rng.sample(range(0, 256, 4), 5)
+    sv = dict(p2p_dims=slots[0] + rng.choice([0, 2]), eth_addr=slots[1] + rng.choice([0, 2]), iobuf_size=slots[2],
+              num_cpus=slots[3] + rng.randrange(4), vcpu_base=slots[4])
+    fields = list(VCPU_LAYOUT_FIELDS)
+    if rng.random() < 0.7:
+        rng.shuffle(fields)
+    off = rng.choice([0, 0, 4, 8, 32])
+    vcpu = {}
+    for name, size, align in fields:
+        off = (off + align - 1) // align * align
+        vcpu[name] = off
+        off += size
+    base = rng.choice([0xf5007f00, 0xf5007e00, 0xe5007f00, 0xf5007c00])
+    if rng.random() < 0.4:                 # the machine extent is still found; only the per-core data moved
+        base = 0xf5007f00
+        a, b = rng.sample([o for o in range(0, 256, 4) if o not in (0, 8, 0xbc)], 2)
+        sv = dict(p2p_dims=2, eth_addr=8, num_cpus=0xbc, iobuf_size=a, vcpu_base=b)
+    return dict(sv_base=base, sv=sv,
+                vcpu_size=(off + 7) // 8 * 8 + rng.choice([0, 0, 32]), vcpu=vcpu)
+
+
+def gen_duo(rng, idx, tier):
+    """SEVERAL controllers in one interpreter, each created with its own `structs` (the packaged struct file, or a
+    layout whose sv / vcpu fields are moved and resized) and probing its own machine, whose memory is laid out
+    accordingly: A then B, B then A, or interleaved (each controller's machine changing state in between as in a
+    history).  Every probe is judged against the machine state its controller was talking to."""
+    ha, hb = gen_history(rng, idx, tier), gen_history(rng, idx + 1, tier)
+    la = None if rng.random() < 0.8 else gen_layout(rng)
+    lb = gen_layout(rng)
+    order = rng.choice([[0, 1], [1, 0], [0, 1, 0, 1], [1, 0, 1, 0], [0, 1, 1, 0]])
+    nxt = {0: 0, 1: 0}
+    stages = []
+    for k in order:
+        st = dict((ha, hb)[k]["stages"][nxt[k]])
+        nxt[k] += 1
+        st["layout"] = (la, lb)[k]
+        stages.append(st)
+    first = stages[0]
+    return dict(kind="duo", stages=stages, ctrl=order, ctrl_layouts=[la, lb], dims=first["dims"], chips=first["chips"],
+                sver=first["sver"], probes=first["probes"], sliver=False)
+
+
 def gen_case(rng, idx, tier):
     malformed = None
     if idx % 8 == 7:
@@ -246,7 +300,8 @@ def gen_case(rng, idx, tier):
             c["answer"] = rng.choice(["silent", ["rc", rng.choice([0x8b, 0x87, 0x8e, 0x8c, 0x86, 0x88])],
                                       ["flaky", N_TRIES + rng.randint(0, 2), rng.choice(["drop", "busy"])]])
         elif rng.random() < 0.06:
-            c["answer"] = ["flaky", rng.randint(1, N_TRIES - 1), rng.choice(["drop", "busy", "sum"])]
+            c["answer"] = rng.choice([["flaky", rng.randint(1, N_TRIES - 1), rng.choice(["drop", "busy", "sum"])],
+                                      ["busy_for", rng.choice([0.001, 0.05, 0.4])]])     # shorter than one time-out
         if (x, y) == bad_one:
             c["answer"] = "ok"
             if malformed == "badstate":
@@ -404,7 +459,7 @@ class Truth(object):
                 if cs is None:
                     continue
                 a = cs["answer"]
-                ok = a == "ok" or (isinstance(a, list) and a[0] == "flaky" and a[1] < N_TRIES)
+                ok = a == "ok" or (isinstance(a, list) and ((a[0] == "flaky" and a[1] < N_TRIES) or a[0] == "busy_for"))
                 if ok:
                     self.live[(x, y)] = cs
         self.chips = chips
@@ -671,7 +726,7 @@ def case_exprs(c, out, sim, tag="k"):
     infos = []
     for x, y, cs in c["chips"]:
         a = cs["answer"]
-        if a == "ok" or (isinstance(a, list) and a[0] == "flaky" and a[1] < N_TRIES):
+        if a == "ok" or (isinstance(a, list) and ((a[0] == "flaky" and a[1] < N_TRIES) or a[0] == "busy_for")):
             a1, a2, a3, data = machine.info_reply(cs)
             infos.append("IE %d %d %d %d %d [%s]" % (x, y, a1, a2, a3, "; ".join("%d" % v for v in bytearray(data))))
     b1, b2, b3, bdata = machine.sver_reply(boot, 0)
@@ -844,7 +899,12 @@ def process_batch(chk, sim, cases, state, built):
                 chk.count("cases-with-global-reservation", 1 if any(q[2] is None for q in o["constraints"]) else 0)
                 chk.count("cases-with-chip-reservation", 1 if any(q[2] is not None for q in o["constraints"]) else 0)
         for key, why in oracle(c, o):
-            if k:
+            if parent["kind"] == "duo":
+                key += ":several-controllers"
+                why = ("controller %d of %d in one interpreter (struct layout %s), call %d of the history: %s"
+                       % (parent["ctrl"][k] + 1, len(parent["ctrl_layouts"]),
+                          "packaged" if c.get("layout") is None else "moved", k + 1, why))
+            elif k:
                 key += ":after-state-change"
                 why = "same controller, machine state %d of its history: %s" % (k + 1, why)
             if key not in state["seen_keys"] or len(chk.failing) < 5:
@@ -858,7 +918,9 @@ def process_batch(chk, sim, cases, state, built):
     if chk.model_ok and built and not state["model_error"]:
         try:
             idx = [i for i, u in enumerate(units) if isinstance(u[2], dict)]
-            named = [case_exprs(units[i][1], units[i][2], sim, "c%d" % i) for i in idx]
+            # the model reads the documented layout: for a machine laid out otherwise it is given the same state in
+            # the documented layout (what is compared are the decoded values)
+            named = [case_exprs(dict(units[i][1], layout=None), units[i][2], sim, "c%d" % i) for i in idx]
             order = sorted(range(len(named)), key=lambda k: -len(named[k][1]))       # big cases first, spread over shards
             nshard = max(1, min(24, len(named) // 4))
             buckets = [[] for _ in range(nshard)]
@@ -926,7 +988,8 @@ def run(chk, args):
             for k in range(0, len(first), per):
                 yield first[k:k + per]
             for k in range(0, n, per):
-                yield [gen_history(chk.rng, i, chk.tier) if i % 6 == 3 else gen_case(chk.rng, i, chk.tier)
+                yield [gen_duo(chk.rng, i, chk.tier) if i % 12 == 9 else
+                       gen_history(chk.rng, i, chk.tier) if i % 6 == 3 else gen_case(chk.rng, i, chk.tier)
                        for i in range(k, min(n, k + per))]
         batches = stream()
     state = dict(seen_keys=set(), nbad=0, ncmp=0, model_error=None, sample=None, base=0)
@@ -942,13 +1005,15 @@ def run(chk, args):
                        "table lengths, sver, status, IOBUF, router counters; exact equality)" % state["ncmp"], True)
     chk.coverage["rule"] = ("random machine states: P2P dimensions <= 12x12 (every 50th a 255xk / kx255 sliver, k <= 3), holes "
                             "(random / row / corner / many), boot chip anywhere, table slots outside the dimensions filled with "
-                            "none / east / garbage, chips silent / refusing / flaky (answering on try 2..5 or never), core counts "
+                            "none / east / garbage, chips silent / refusing / flaky (answering on try 2..5 or never) / busy for 1-400 ms of virtual time, core counts "
                             "0..18 with a common value, core-state patterns fresh / shared-busy / shared+own / random / all busy / "
                             "all idle, link patterns all / periphery / random / none, free-memory figures with a common value and "
                             "32-bit extremes, router blocks 0..2047, both sver encodings (0 / 1 / several trailing NULs), 1-3 probed cores with IOBUF chains of 0-5 "
                             "blocks (text, random binary, valid bytes containing and ending in NUL bytes in first / middle / last blocks); every 8th machine malformed (correspondence only); every 6th case a history: ONE controller probing 2-3 "
                             "successive states of the same machine (different vcpu_base, iobuf_size, vcpu blocks, IOBUF chains, core counts, "
-                            "states, links, memory, answering chips), each probe judged against the state current at that call; thorough tier adds exhaustive sweeps (every table height "
+                            "states, links, memory, answering chips), each probe judged against the state current at that call; every 12th case several controllers in one interpreter, each "
+                            "with its own struct layout (sv / vcpu fields moved, vcpu resized and permuted) and its own machine, A-B / B-A / "
+                            "interleaved; thorough tier adds exhaustive sweeps (every table height "
                             "1..255, every link mask, every core count 0..31, every AppState in every core position, every router "
                             "block size); non-trivial = well-formed machine (every state of a history) on which "
                             "get_system_info reports >= 2 chips; distinct by hash of the whole machine state")
